@@ -10014,6 +10014,25 @@ func FieldDimensions(sources Sources, m FieldMapper, schema *Schema) (fields map
 				}
 			}
 
+			if src.Statement.Without {
+				// PromQL `without (l1, l2)`: the statement lists the labels it removes, its output
+				// carries every other tag of its own sources (listing the removed labels as the
+				// dimensions made `topk(1, min without (job) (m))` select job and lose the rest)
+				var sub Schema
+				_, all, err := FieldDimensions(src.Statement.Sources, m, &sub)
+				if err != nil {
+					return nil, nil, err
+				}
+				for _, d := range src.Statement.Dimensions {
+					if expr, ok := d.Expr.(*VarRef); ok {
+						delete(all, expr.Val)
+					}
+				}
+				for k := range all {
+					dimensions[k] = struct{}{}
+				}
+				continue
+			}
 			for _, d := range src.Statement.Dimensions {
 				if expr, ok := d.Expr.(*VarRef); ok {
 					dimensions[expr.Val] = struct{}{}
